@@ -121,7 +121,7 @@ Definition list_nodes (v : nview) : option (list N) + string :=
           let els := elements set in
           (* nbnodes counts the entries, the bitmap holds distinct indexes: calloc leaves the other slots 0 *)
           match idx with
-          | [] => inr "node-directory-without-node"%string        (* assert(nbnodes >= 1) *)
+          | [] => inl None                                       (* a node directory without any node<n>: ignored *)
           | _ => inl (Some (els ++ repeat 0 (List.length idx - List.length els)))
           end
     end in
